@@ -204,6 +204,12 @@ def summary():
     for p in sorted(os.listdir("/verif/mutants")):
         if p.startswith("lane_"):
             recs += [json.loads(l) for l in open(os.path.join("/verif/mutants", p))]
+    # lanes may overlap: one record per mutant, preferring the one with a detection
+    by_id = {}
+    for r in recs:
+        if r["id"] not in by_id or (r.get("detected_by") and not by_id[r["id"]].get("detected_by")):
+            by_id[r["id"]] = r
+    recs = list(by_id.values())
     surv = [r for r in recs if r["status"] == "survives-baseline"]
     det = [r for r in surv if r.get("detected_by")]
     out = ["# Automatic mutation campaign", "",
